@@ -274,6 +274,16 @@ func (c *Check) RunTasks(tasks []Task) {
 			n = k
 		}
 	}
+	// every worker may grow to its soft memory limit (workerMemGiB) and a bit: do not start more of them than the
+	// machine's available memory carries (an out-of-memory kill would take part of the exploration with it)
+	if avail := memAvailableGiB(); avail > 0 {
+		if byMem := int(float64(avail) * 0.8 / (workerMemGiB + 0.5)); byMem < n {
+			n = byMem
+		}
+		if n < 2 {
+			n = 2
+		}
+	}
 	if n > len(tasks) {
 		n = len(tasks)
 	}
@@ -303,7 +313,7 @@ func (c *Check) RunTasks(tasks []Task) {
 				ctx, cancel := context.WithDeadline(context.Background(), c.deadline.Add(120*time.Second))
 				cmd := exec.CommandContext(ctx, os.Args[0], c.Tier)
 				cmd.Env = append(os.Environ(), fmt.Sprintf("VERIF_WORKER=%d/%d", ti, len(tasks)), "VERIF_TIER="+c.Tier,
-					fmt.Sprintf("VERIF_DEADLINE_UNIX=%d", c.deadline.Unix()), "GOMAXPROCS="+gomaxprocs(), "GOMEMLIMIT=6GiB")
+					fmt.Sprintf("VERIF_DEADLINE_UNIX=%d", c.deadline.Unix()), "GOMAXPROCS="+gomaxprocs(), fmt.Sprintf("GOMEMLIMIT=%dGiB", int(workerMemGiB)))
 				logf, _ := os.Create(logp)
 				cmd.Stdout, cmd.Stderr = logf, logf
 				err := cmd.Run()
@@ -313,6 +323,12 @@ func (c *Check) RunTasks(tasks []Task) {
 				data, rerr := ioutil.ReadFile(out)
 				if timedOut {
 					c.NotExhaustive(fmt.Sprintf("task %s did not finish within the deadline and was stopped", tasks[ti].Name))
+					continue
+				}
+				if ee, ok := err.(*exec.ExitError); ok && rerr != nil && ee.ProcessState != nil && !ee.ProcessState.Exited() {
+					// killed by a signal that was not ours (the kernel's out-of-memory killer): that part of the exploration
+					// is missing (with whatever it had found so far): the run is reported as not exhaustive, not as broken
+					c.NotExhaustive(fmt.Sprintf("the worker for task %s was killed from outside (%v, most likely out of memory) and its part of the exploration is incomplete", tasks[ti].Name, err))
 					continue
 				}
 				if err != nil || rerr != nil {
@@ -333,6 +349,26 @@ func (c *Check) RunTasks(tasks []Task) {
 		}()
 	}
 	wg.Wait()
+}
+
+const workerMemGiB = 3.0
+
+// memAvailableGiB reads MemAvailable from /proc/meminfo (0 when unknown).
+func memAvailableGiB() int {
+	data, err := ioutil.ReadFile("/proc/meminfo")
+	if err != nil {
+		return 0
+	}
+	for _, l := range strings.Split(string(data), "\n") {
+		if strings.HasPrefix(l, "MemAvailable:") {
+			f := strings.Fields(l)
+			if len(f) >= 2 {
+				kb, _ := strconv.Atoi(f[1])
+				return kb / (1024 * 1024)
+			}
+		}
+	}
+	return 0
 }
 
 func gomaxprocs() string {
